@@ -284,3 +284,26 @@ def fam_text(seed, n_random, runs):
         out.append(base("text-rnd%d" % j, piped, 1, 4096, rng.choice([0, 5, 30]), child, calls, runs=runs,
                         text=True, content=content, short=(rng.random() < 0.5)))
     return out
+
+
+def fam_eintr(seed, n_random, runs):
+    """C02/C04: read(), write() and poll() of the library fail with EINTR at arbitrary points (a signal handler
+    without SA_RESTART); the error's capture and every later read stay exact"""
+    rng = random.Random(seed * 49979687 + 6)
+    out = []
+    for j in range(n_random):
+        piped = rng.choice(SUBSETS)
+        unit = rng.choice([4096, 2048, 1024, 2])
+        k = 4096 // unit
+        if unit == 2:
+            cap = k
+            inp, mo, me, kk = rng.choice([0, 100, 3000]), rng.choice([0, 2048, 5000]), rng.choice([0, 2049]), 1500
+        else:
+            cap = rng.choice([k, 2 * k, 2 * k + 1])
+            inp, mo, me, kk = rng.choice([0, 1, cap + k + 1]), rng.randint(0, 2 * cap + 3), rng.randint(0, cap + 2), k
+        child = rand_child(rng, piped, kk, inp, mo, me)
+        calls = [{}] * 8
+        if rng.random() < 0.3:
+            calls = [{"limit": rng.choice([1, k, 2 * k + 1])}] + [{}] * 8
+        out.append(base("eintr-rnd%d" % j, piped, unit, cap, inp, child, calls, runs=runs, eintr=True))
+    return out
